@@ -43,6 +43,7 @@ struct Budget {
 	a_seeds: usize,
 	a_random_paths: usize,
 	a_boundary_depth: u8,
+	a_boundary_samples: usize,
 	b_cases: usize,
 	c_cases: usize,
 	d_cases: usize,
@@ -443,6 +444,21 @@ fn phase_a_paths(ctx: &Ctx) -> Vec<PathSpec> {
 		}
 	}
 	let mut p = case_prng(ctx.run.seed, 0xA0, 0);
+	// sampled boundary paths of the deeper levels
+	let mut guard = 0;
+	let want = paths.len() + ctx.budget.a_boundary_samples;
+	while ctx.budget.a_boundary_depth < 4 && paths.len() < want && guard < 100_000 {
+		guard += 1;
+		let depth = ctx.budget.a_boundary_depth + 1 + p.below((4 - ctx.budget.a_boundary_depth) as u64) as u8;
+		let mut d = [0u32; 4];
+		for i in 0..depth as usize {
+			d[i] = BOUNDARY[p.usize_below(5)];
+		}
+		let ps = PathSpec { depth, d };
+		if seen.insert(ps.clone()) {
+			paths.push(ps);
+		}
+	}
 	let mut guard = 0;
 	let want = paths.len() + ctx.budget.a_random_paths;
 	while paths.len() < want && guard < 100_000 {
@@ -459,7 +475,7 @@ fn phase_a_paths(ctx: &Ctx) -> Vec<PathSpec> {
 fn phase_a(ctx: &Ctx) {
 	let run = ctx.run;
 	let paths = phase_a_paths(ctx);
-	const CHUNK: usize = 64;
+	const CHUNK: usize = 8;
 	let chunks_per_seed = (paths.len() + CHUNK - 1) / CHUNK;
 	let n_items = ctx.budget.a_seeds * chunks_per_seed;
 	let deadline = Instant::now() + Duration::from_secs(ctx.budget.a_secs);
@@ -753,7 +769,12 @@ fn proof_case(ctx: &Ctx, idx: usize) {
 	// ---- the proof verifies
 	run.eval(&format!("{};chk=create_verify", base), true);
 	let v1 = proof::verify(secp, commit, prf, None);
-	let v2 = Output::new(OutputFeatures::Plain, commit, prf).verify_proof();
+	// the consensus-side entry point (shared static secp context) on a quarter of the cases
+	let v2 = if idx % 4 == 0 {
+		Output::new(OutputFeatures::Plain, commit, prf).verify_proof()
+	} else {
+		Ok(())
+	};
 	if v1.is_err() || v2.is_err() {
 		run.violation(
 			&format!("check=proof_verify;builder={};switch={}", b, sws),
@@ -810,8 +831,9 @@ fn proof_case(ctx: &Ctx, idx: usize) {
 	}
 
 	// ---- rewind with a builder over a second keychain made from the same seed
-	let kc2 = ctx.fresh_kc(c.seed_idx);
-	{
+	// (from_seed costs ~20 ms: every third case)
+	if idx % 3 == 0 {
+		let kc2 = ctx.fresh_kc(c.seed_idx);
 		let builder2 = AnyBuilder::new(c.kind, &kc2);
 		let r = classify(proof::rewind(kc2.secp(), &builder2, commit, None, prf), c.amount, &id, c.sw);
 		run.eval(&format!("{};chk=rewind_fresh_keychain", base), true);
@@ -891,9 +913,17 @@ fn view_key_checks(
 				run.count(&format!("B.viewkey.matching.exact.{}", sws), 1);
 				run.count(&format!("B.viewkey.matching.exact.kind.{}", vk_kind), 1);
 			} else {
-				run.count(&format!("B.viewkey.matching.{}.{}", r.tag(), sws), 1);
+				run.count(
+					&format!("B.viewkey.matching.{}.{}.amount_{}", r.tag(), sws, if c.amount == 0 { "zero" } else { "nonzero" }),
+					1,
+				);
 				run.violation(
-					&format!("check=viewkey_rewind;switch={};got={}", sws, r.tag()),
+					&format!(
+						"check=viewkey_rewind;switch={};amount={};got={}",
+						sws,
+						if c.amount == 0 { "zero" } else { "nonzero" },
+						r.tag()
+					),
 					&format!(
 						"matching view key ({}, depth {}) did not recover (amount, path, mode) = ({}, {}, {}): {} {}",
 						vk_kind, vk.depth, c.amount, id, sws, r.tag(), r.detail()
@@ -2076,9 +2106,9 @@ fn requirements(ctx: &Ctx) {
 	let b = ctx.budget;
 	let c = |n: &str| run.counter(n);
 	// A
-	let a_min = (b.a_seeds as u64) * 600 * 12 / 2;
-	run.require("A: (seed,path,amount,mode) determinism cases", c("A.cases"), if b.a_boundary_depth >= 4 { a_min } else { 500 });
-	run.require("A: distinct commitments observed", c("A.distinct_commitments"), if b.a_boundary_depth >= 4 { a_min } else { 500 });
+	let a_planned = (b.a_seeds as u64) * c("A.paths") * 12;
+	run.require("A: (seed,path,amount,mode) determinism cases", c("A.cases"), a_planned * 9 / 10);
+	run.require("A: distinct commitments observed", c("A.distinct_commitments"), a_planned * 9 / 10);
 	// B: every (builder x switch) combination the code supports
 	let per = (b.b_cases as u64) / 16;
 	for (bk, sw) in [("ProofBuilder", "Regular"), ("ProofBuilder", "None"), ("LegacyProofBuilder", "Regular"), ("LegacyProofBuilder", "None")] {
@@ -2093,7 +2123,7 @@ fn requirements(ctx: &Ctx) {
 		run.require(
 			&format!("B: fresh-keychain rewind exact, {} x {}", bk, sw),
 			c(&format!("B.rewind_fresh_keychain.exact.{}.{}", bk, sw)),
-			per / 2,
+			per / 8,
 		);
 	}
 	run.require(
@@ -2138,32 +2168,37 @@ fn main() {
 	monitor::install_panic_hook();
 
 	let san = run.args.iter().any(|a| a == "--san") || std::env::var("VERIF_SAN").is_ok();
+	// Sizes follow measured CPU costs (one BIP32 level ~1.5 ms because every ckd_priv builds a
+	// secp context for the fingerprint, from_seed ~20 ms, proof creation ~50 ms): quick ~550
+	// core-seconds, thorough ~5000 core-seconds, spread over up to 16 threads.
 	let mut budget = run.tier.pick(
 		Budget {
-			a_seeds: 6,
-			a_random_paths: 150,
-			a_boundary_depth: 4,
-			b_cases: 3000,
+			a_seeds: 4,
+			a_random_paths: 25,
+			a_boundary_depth: 2,
+			a_boundary_samples: 40,
+			b_cases: 1800,
 			c_cases: 24_000,
-			d_cases: 480,
-			e_cases: 4000,
-			a_secs: 25,
-			b_secs: 40,
-			c_secs: 10,
-			d_secs: 20,
-			e_secs: 10,
+			d_cases: 320,
+			e_cases: 1500,
+			a_secs: 22,
+			b_secs: 35,
+			c_secs: 6,
+			d_secs: 16,
+			e_secs: 8,
 		},
 		Budget {
-			a_seeds: N_SEEDS,
-			a_random_paths: 1500,
-			a_boundary_depth: 4,
-			b_cases: 40_000,
-			c_cases: 240_000,
-			d_cases: 6000,
-			e_cases: 40_000,
-			a_secs: 120,
+			a_seeds: 8,
+			a_random_paths: 150,
+			a_boundary_depth: 3,
+			a_boundary_samples: 100,
+			b_cases: 18_000,
+			c_cases: 100_000,
+			d_cases: 3300,
+			e_cases: 8000,
+			a_secs: 150,
 			b_secs: 330,
-			c_secs: 40,
+			c_secs: 30,
 			d_secs: 140,
 			e_secs: 40,
 		},
@@ -2171,18 +2206,28 @@ fn main() {
 	if san {
 		budget = Budget {
 			a_seeds: 1,
-			a_random_paths: 20,
-			a_boundary_depth: 3,
-			b_cases: 300,
+			a_random_paths: 5,
+			a_boundary_depth: 1,
+			a_boundary_samples: 6,
+			b_cases: 180,
 			c_cases: 2400,
-			d_cases: 48,
-			e_cases: 400,
-			a_secs: 120,
-			b_secs: 300,
-			c_secs: 60,
-			d_secs: 120,
-			e_secs: 60,
+			d_cases: 32,
+			e_cases: 150,
+			a_secs: 300,
+			b_secs: 900,
+			c_secs: 120,
+			d_secs: 600,
+			e_secs: 120,
 		};
+	}
+	// test knob: stretch the wall-clock caps on a loaded machine (never set by ./check)
+	if let Some(f) = std::env::var("C20_TIME_SCALE").ok().and_then(|v| v.parse::<u64>().ok()) {
+		let f = f.max(1);
+		budget.a_secs *= f;
+		budget.b_secs *= f;
+		budget.c_secs *= f;
+		budget.d_secs *= f;
+		budget.e_secs *= f;
 	}
 
 	let threads = std::thread::available_parallelism()
@@ -2243,6 +2288,62 @@ fn main() {
 	run.assume("LegacyProofBuilder round trip is asserted only inside its documented domain (depth-3 path, Regular switch); outside it only 'never returns wrong data'");
 	run.assume("a view key 'matches' an output when it was created from the same keychain at a prefix node of the output's path and all remaining path components are non-hardened (BIP32 public derivation)");
 	run.assume("sums that are 0 mod n may be reported as Err(InvalidSecretKey) or as the zero blinding factor (documented zero handling)");
+
+	if std::env::var("C20_BENCH").is_ok() {
+		fn cpu() -> f64 {
+			let mut ts = libc::timespec { tv_sec: 0, tv_nsec: 0 };
+			unsafe { libc::clock_gettime(libc::CLOCK_THREAD_CPUTIME_ID, &mut ts) };
+			ts.tv_sec as f64 + ts.tv_nsec as f64 * 1e-9
+		}
+		let kc = &kcs[0];
+		for depth in [0u8, 1, 4] {
+			let id = ExtKeychain::derive_key_id(depth, 1, 2, 3, 4);
+			let t = cpu();
+			for i in 0..50 {
+				let _ = kc.derive_key(i, &id, SwitchCommitmentType::Regular).unwrap();
+			}
+			println!("derive_key depth {} : {:.3} ms", depth, (cpu() - t) * 1000.0 / 50.0);
+		}
+		let t = cpu();
+		for _ in 0..20 {
+			let _ = ExtKeychain::from_seed(&seeds[0].bytes, false).unwrap();
+		}
+		println!("from_seed: {:.3} ms", (cpu() - t) * 1000.0 / 20.0);
+		let id = ExtKeychain::derive_key_id(3, 1, 2, 3, 0);
+		let b = AnyBuilder::new(BKind::New, kc);
+		let c = kc.commit(5, &id, SwitchCommitmentType::None).unwrap();
+		let t = cpu();
+		let mut pr = None;
+		for _ in 0..10 {
+			pr = Some(proof::create(kc, &b, 5, &id, SwitchCommitmentType::None, c, None).unwrap());
+		}
+		println!("proof create: {:.3} ms", (cpu() - t) * 1000.0 / 10.0);
+		let pr = pr.unwrap();
+		let t = cpu();
+		for _ in 0..10 {
+			proof::verify(kc.secp(), c, pr, None).unwrap();
+		}
+		println!("proof verify: {:.3} ms", (cpu() - t) * 1000.0 / 10.0);
+		let t = cpu();
+		for _ in 0..10 {
+			proof::rewind(kc.secp(), &b, c, None, pr).unwrap().unwrap();
+		}
+		println!("proof rewind: {:.3} ms", (cpu() - t) * 1000.0 / 10.0);
+		for ph in [1usize, 2, 3, 4] {
+			let t = cpu();
+			let n = 8;
+			for i in 0..n {
+				match ph {
+					1 => proof_case(&ctx, i * 7),
+					2 => blind_case(&ctx, i),
+					3 => builder_case(&ctx, i),
+					_ => aggsig_case(&ctx, i),
+				}
+			}
+			println!("phase {} case: {:.3} ms", ph, (cpu() - t) * 1000.0 / n as f64);
+		}
+		return;
+	}
 
 	let t0 = Instant::now();
 	if ctx.wants("determinism") {
